@@ -8,6 +8,7 @@ import hashlib
 import os
 import random
 import sys
+import _thread
 import threading
 import types
 import warnings
@@ -144,10 +145,12 @@ def instrument():
     root = os.path.join(env.REPO, "selfies") + os.sep
     _state["root"] = root
     mon.use_tool_id(TOOL, "schedsim")
-    for co in selfies_code_objects():
+    _state["codes"] = selfies_code_objects()
+    for co in _state["codes"]:
         mon.set_local_events(TOOL, co, mon.events.INSTRUCTION)
         _state["instrumented"] += 1
     mon.register_callback(TOOL, mon.events.INSTRUCTION, _on_instr)
+    mon.register_callback(TOOL, mon.events.LINE, _on_line)
     mon.register_callback(TOOL, mon.events.PY_START, _on_start)
     mon.set_events(TOOL, mon.events.PY_START)
 
@@ -155,13 +158,26 @@ def instrument():
 def _on_start(code, offset):
     # catches selfies code objects the static walk missed (created later, nested)
     if code.co_filename.startswith(_state["root"]):
-        if not (mon.get_local_events(TOOL, code) & mon.events.INSTRUCTION):
-            mon.set_local_events(TOOL, code, mon.events.INSTRUCTION)
+        ev = _state.get("event", mon.events.INSTRUCTION)
+        if not (mon.get_local_events(TOOL, code) & ev):
+            mon.set_local_events(TOOL, code, ev)
             _state["late"] += 1
             if _S is not None:
                 _S.late += 1
         return None
     return mon.DISABLE
+
+
+def native_line_mode():
+    """(in the forked child of one run) pre-empt at source lines only, using LINE events instead
+    of filtering INSTRUCTION events: ~8x fewer callbacks, for runs with very large inputs."""
+    _state["event"] = mon.events.LINE
+    for co in _state["codes"]:
+        mon.set_local_events(TOOL, co, mon.events.LINE)
+
+
+def _on_line(code, line):
+    _on_instr(code, -line)       # pseudo-offset: the negated line number
 
 
 def _on_instr(code, offset):
@@ -200,7 +216,13 @@ class Sched:
         self.rng = rng
         self.explicit = explicit        # dict(switches=[[step, to]], exits=[to, ...]) or None
         self.budget = budget
-        self.sems = [threading.Semaphore(0) for _ in range(n)]
+        # the baton: one raw lock per thread, held (locked) while the thread may not run.  Raw
+        # _thread locks are used because their acquire/release are single C calls: they need no
+        # Python frame, so they can neither raise RecursionError half-way (deep-nesting inputs run
+        # the SUT at the interpreter's recursion limit) nor be torn by it
+        self.sems = [_thread.allocate_lock() for _ in range(n)]
+        for lk in self.sems:
+            lk.acquire()
         self.alive = [True] * n
         self.blocked = [None] * n
         self.in_call = [False] * n
@@ -208,7 +230,9 @@ class Sched:
         self.tsteps = [0] * n
         self.switches = []              # [step, from, to, reason, co_name, offset]
         self.exits = []
-        self.done = threading.Event()
+        self.done_lock = _thread.allocate_lock()
+        self.done_lock.acquire()
+        self.finished = False
         self.outcome = "ok"             # ok | deadlock | step-budget
         self.harness_error = None
         self.lock_ops = 0
@@ -257,12 +281,19 @@ class Sched:
     def runnable(self, exclude=None):
         return [i for i in range(self.n) if self.alive[i] and self.blocked[i] is None and i != exclude]
 
+    def _finish(self):
+        self.finished = True
+        try:
+            self.done_lock.release()
+        except RuntimeError:
+            pass
+
     def _record(self, frm, to, reason, code, offset):
         name = code.co_name if code is not None else "-"
         self.switches.append([self.step, frm, to, reason, name, offset if offset is not None else -1])
         if reason == "preempt":
             self.sites.add((name, offset))
-            if name in WINDOW or (code is not None and self.policy["kind"] == "window" and self.is_hot(code)):
+            if name in WINDOW or (self.policy["kind"] == "window" and self.is_hot(code)):
                 self.window_switches += 1
             if self.in_call[frm] and self.in_call[to]:
                 self.overlap += 1
@@ -274,39 +305,46 @@ class Sched:
 
     # -- the pre-emption point
     def step_event(self, tid, code, offset):
-        if self.done.is_set():
+        if self.finished:
             self.sems[tid].acquire()    # run is over (deadlock/budget): park for good
         self.step += 1
         self.tsteps[tid] += 1
         if offset == 2:     # first instruction after RESUME: function entry (reach probes only)
-            name = code.co_name
-            if name == "_process_atom_selfies_no_cache":
-                self.miss_calls += 1
-                try:
-                    sym = sys._getframe(2).f_locals.get("symbol")
-                except Exception:
-                    sym = None
-                if sym is not None and any(m == sym for i, m in enumerate(self.missing) if i != tid):
-                    self.double_miss += 1
-                self.missing[tid] = sym
-            elif name == "process_atom_symbol":
-                self.missing[tid] = None
-            elif name == "_find_augmenting_path":
-                self.in_aug[tid] = True
-                if sum(self.in_aug) > 1:
-                    self.double_aug += 1
-            elif name in ("encoder", "decoder"):
-                self.in_aug[tid] = False
+            self.entry_probe(tid, code)
         if self.step > self.budget:
             self.outcome = "step-budget"
-            self.done.set()
+            self._finish()
             self.sems[tid].acquire()
         if self.gran_line and offset not in _line_starts(code):
             return
         to = self.decide(tid, code)
         if to is not None and to != tid:
+            # everything a RecursionError could interrupt (Python-level calls) comes first ...
             self._record(tid, to, "preempt", code, offset)
-            self._handover(tid, to)
+            # ... and the hand-over itself is C calls only
+            self.current = to
+            self.sems[to].release()
+            self.sems[tid].acquire()
+
+    def entry_probe(self, tid, code):
+        name = code.co_name
+        if name == "_process_atom_selfies_no_cache":
+            self.miss_calls += 1
+            try:
+                sym = sys._getframe(3).f_locals.get("symbol")
+            except Exception:
+                sym = None
+            if sym is not None and any(m == sym for i, m in enumerate(self.missing) if i != tid):
+                self.double_miss += 1
+            self.missing[tid] = sym
+        elif name == "process_atom_symbol":
+            self.missing[tid] = None
+        elif name == "_find_augmenting_path":
+            self.in_aug[tid] = True
+            if sum(self.in_aug) > 1:
+                self.double_aug += 1
+        elif name in ("encoder", "decoder"):
+            self.in_aug[tid] = False
 
     def decide(self, tid, code):
         if self.explicit is not None:
@@ -376,7 +414,7 @@ class Sched:
         if nxt is None:
             if any(self.alive):
                 self.outcome = "deadlock"
-            self.done.set()
+            self._finish()
         else:
             self._record(tid, nxt, "exit", None, None)
             self.current = nxt
@@ -387,7 +425,7 @@ class Sched:
         nxt = self.pick_next(tid)
         if nxt is None:
             self.outcome = "deadlock"
-            self.done.set()
+            self._finish()
             self.sems[tid].acquire()    # parked for good
         self._record(tid, nxt, "block", None, None)
         self._handover(tid, nxt)
@@ -416,6 +454,8 @@ def run(sf, spec):
     explicit=None|{...}, budget=int, probes=[call, ...]) -> record."""
     global _S
     warnings.simplefilter("ignore")
+    if spec["policy"].get("gran") == "native-line":
+        native_line_mode()
     apply_table(sf, spec["table"])
     n = len(spec["threads"])
     rng = random.Random(spec["seed"]) if spec.get("explicit") is None else None
@@ -443,7 +483,7 @@ def run(sf, spec):
     first = S.first()
     S.current = first
     S.sems[first].release()
-    if not S.done.wait(timeout=spec.get("wall", 100.0)):
+    if not S.done_lock.acquire(True, spec.get("wall", 100.0)):
         S.outcome = "wall-timeout"
     if S.outcome == "ok":
         for t in threads:
@@ -468,10 +508,10 @@ def run(sf, spec):
     }
 
 
-def run_alone(sf, K, call):
+def run_alone(sf, K, call, gran="instr"):
     """One call on one simulated thread, no switching: its step count (for the
     PCT change points and the liveness budget) and its result (must equal the
     uninstrumented oracle's)."""
-    rec = run(sf, {"table": K, "threads": [[call]], "policy": {"kind": "random", "p": 0.0},
+    rec = run(sf, {"table": K, "threads": [[call]], "policy": {"kind": "random", "p": 0.0, "gran": gran},
                    "seed": "alone", "budget": 10 ** 9, "probes": []})
     return rec["results"][0][0], rec["steps"], rec["harness_error"]
